@@ -9,6 +9,7 @@ import (
 	"encoding/json"
 	"fmt"
 	"os"
+	"os/exec"
 	"path/filepath"
 	"strings"
 
@@ -68,6 +69,105 @@ func writeIfChanged(path, content string) {
 		return
 	}
 	must(os.WriteFile(path, []byte(content), 0o644))
+}
+
+// ---- the generator's file template, derived by RUNNING cmd/ on small synthetic JSON in a scratch directory ----
+type pair struct {
+	id  string
+	dep bool
+}
+
+func runGen(scratch, repo string, lic, exc []pair) (map[string]string, error) {
+	os.RemoveAll(scratch)
+	cmdDir := filepath.Join(scratch, "cmd")
+	outDir := filepath.Join(scratch, "spdxexp", "spdxlicenses")
+	if err := os.MkdirAll(cmdDir, 0o755); err != nil {
+		return nil, err
+	}
+	if err := os.MkdirAll(outDir, 0o755); err != nil {
+		return nil, err
+	}
+	src, _ := filepath.Glob(filepath.Join(repo, "cmd", "*.go"))
+	for _, f := range src {
+		b, err := os.ReadFile(f)
+		if err != nil {
+			return nil, err
+		}
+		os.WriteFile(filepath.Join(cmdDir, filepath.Base(f)), b, 0o644)
+	}
+	for _, f := range []string{"go.mod", "go.sum"} {
+		b, err := os.ReadFile(filepath.Join(repo, f))
+		if err != nil {
+			return nil, err
+		}
+		os.WriteFile(filepath.Join(scratch, f), b, 0o644)
+	}
+	type L struct {
+		Dep bool   `json:"isDeprecatedLicenseId"`
+		ID  string `json:"licenseId"`
+	}
+	type E struct {
+		Dep bool   `json:"isDeprecatedLicenseId"`
+		ID  string `json:"licenseExceptionId"`
+	}
+	ls, es := []L{}, []E{}
+	for _, x := range lic {
+		ls = append(ls, L{x.dep, x.id})
+	}
+	for _, x := range exc {
+		es = append(es, E{x.dep, x.id})
+	}
+	j, _ := json.Marshal(map[string]interface{}{"licenseListVersion": "t", "licenses": ls})
+	os.WriteFile(filepath.Join(cmdDir, "licenses.json"), j, 0o644)
+	j, _ = json.Marshal(map[string]interface{}{"licenseListVersion": "t", "exceptions": es})
+	os.WriteFile(filepath.Join(cmdDir, "exceptions.json"), j, 0o644)
+	bin := filepath.Join(scratch, "gen.bin")
+	build := exec.Command("go", "build", "-o", bin, ".")
+	build.Dir = cmdDir
+	if o, err := build.CombinedOutput(); err != nil {
+		return nil, fmt.Errorf("go build of cmd failed: %s", o)
+	}
+	run := exec.Command(bin, "extract", "-l", "-e")
+	run.Dir = cmdDir
+	if o, err := run.CombinedOutput(); err != nil {
+		return nil, fmt.Errorf("generator failed: %s", o)
+	}
+	out := map[string]string{}
+	for _, f := range []string{"get_licenses.go", "get_deprecated.go", "get_exceptions.go"} {
+		b, err := os.ReadFile(filepath.Join(outDir, f))
+		if err != nil {
+			return nil, err
+		}
+		out[f] = string(b)
+	}
+	return out, nil
+}
+
+// template: file = header ++ concat [pre ++ id ++ post | id <- ids] ++ footer
+func deriveTemplate(empty, one, two string, id1 string, ids2 [2]string) (h, pre, post, f string, ok bool) {
+	n := 0
+	for n < len(empty) && n < len(one) && empty[n] == one[n] {
+		n++
+	}
+	i := strings.Index(one, id1)
+	if i < 0 {
+		return
+	}
+	if n > i {
+		n = i
+	}
+	h = empty[:n]
+	f = empty[n:]
+	pre = one[n:i]
+	rest := one[i+len(id1):]
+	if !strings.HasSuffix(rest, f) {
+		return
+	}
+	post = rest[:len(rest)-len(f)]
+	if h+pre+ids2[0]+post+pre+ids2[1]+post+f != two {
+		return
+	}
+	return h, pre, post, f, true
 }
 
 func main() {
@@ -140,4 +240,32 @@ func main() {
 		fmt.Fprintf(&b, "Definition %s : string := %s.\n", f[0], q(string(raw)))
 	}
 	writeIfChanged(filepath.Join(out, "Files.v"), b.String())
+
+	// Template.v: how the generator lays a file out, observed by running it (scratch copy, removed afterwards)
+	scratch := filepath.Join(filepath.Dir(filepath.Clean(out)), "..", "build", "run", "translate-gen")
+	defer os.RemoveAll(scratch)
+	b.Reset()
+	b.WriteString("(* GENERATED by harness/translate: the file layout of cmd/, derived by running it on 0, 1 and 2 ids. Do not edit. *)\n")
+	b.WriteString("From Coq Require Import String.\nLocal Open Scope string_scope.\n")
+	e0, err0 := runGen(scratch, repo, nil, nil)
+	e1, err1 := runGen(scratch, repo, []pair{{"Aa-1.0", false}, {"Bb-2.0", true}}, []pair{{"Cc-exception", false}})
+	e2, err2 := runGen(scratch, repo, []pair{{"Aa-1.0", false}, {"Bb-2.0", true}, {"Dddd", false}, {"E", true}}, []pair{{"Cc-exception", false}, {"F-exception-2", false}})
+	okAll := err0 == nil && err1 == nil && err2 == nil
+	type tp struct{ name, file, id1 string; ids2 [2]string }
+	for _, t := range []tp{{"tpl_licenses", "get_licenses.go", "Aa-1.0", [2]string{"Aa-1.0", "Dddd"}},
+		{"tpl_deprecated", "get_deprecated.go", "Bb-2.0", [2]string{"Bb-2.0", "E"}},
+		{"tpl_exceptions", "get_exceptions.go", "Cc-exception", [2]string{"Cc-exception", "F-exception-2"}}} {
+		h, pre, post, f := "", "", "", ""
+		ok := false
+		if okAll {
+			h, pre, post, f, ok = deriveTemplate(e0[t.file], e1[t.file], e2[t.file], t.id1, t.ids2)
+		}
+		if !ok {
+			// not of the form header ++ lines ++ footer (or the generator could not be run): the obligations that
+			// use the template will not hold
+			h, pre, post, f = "<<generator layout could not be derived>>", "", "", ""
+		}
+		fmt.Fprintf(&b, "Definition %s : string * string * string * string := (%s, %s, %s, %s).\n", t.name, q(h), q(pre), q(post), q(f))
+	}
+	writeIfChanged(filepath.Join(out, "Template.v"), b.String())
 }
